@@ -9,6 +9,10 @@ GUARD = "OPENCYPHAL_PYDSDL_VERIF"
 os.environ.setdefault("PYTHONDONTWRITEBYTECODE", "1")
 sys.dont_write_bytecode = True
 
+def quiet():
+    import logging
+    logging.disable(logging.CRITICAL)
+
 def use_repo():
     """Make `import pydsdl` resolve to REPO's working tree."""
     p = str(REPO)
@@ -171,6 +175,8 @@ def match_finding(findings, rec):
 # ---- parallel map ---------------------------------------------------------------------------------------------
 def _init_worker():
     use_repo()
+    import logging
+    logging.disable(logging.CRITICAL)      # pydsdl logs warnings (legacy extensions etc.); not part of any observation
 
 def pmap(fn, items, procs: int = 16, chunksize: int = 64):
     """Map fn over items in worker processes (fork). fn must be a module-level function."""
